@@ -69,7 +69,11 @@ Pre_WsOpen(u) == If(st[u].hin > 0 /\ st[u].tr = "unknown" /\ st[u].h = "none", "
 Eff_WsOpen(u) == [st[u] EXCEPT !.tr = "ws", !.h = "open"]
 
 \* legacy OUT side: attached, accepted (200 sent), published in the cache under its connection id
+\* (a second RDG_OUT_DATA request may replace the connection the tunnel answers on: not while a writer is inside the
+\* writer section, and no packet of the tunnel goes out on the new connection before the response to that request -
+\* i.e. between "attached" and "accepted" - see Pre_WriteBegin)
 Pre_OutAttached(u) == If(st[u].hin > 0 /\ st[u].tr # "ws", "G_C07_TransportAttachedOnce")
+                      \cup If(st[u].wr = {}, "G_C09_OutReplacedOutsideTheWriterSection")
 Eff_OutAttached(u) == [st[u] EXCEPT !.tr = "legacy", !.out = "attached"]
 Pre_OutAccepted(u) == If(st[u].out = "attached", "G_C07_OutOrder")
 Eff_OutAccepted(u) == [st[u] EXCEPT !.out = "accepted"]
@@ -153,6 +157,7 @@ Pre_WriteBegin(u, role) ==
   \cup If(role = "loop" => st[u].loop = "handling", "G_C16_ResponsesOnlyWhileHandling")
   \cup If(role = "relay" => (st[u].conn /\ st[u].relay = "running"), "G_C01_RelayOnlyAfterConnect")
   \cup If(role \in {"loop", "relay"}, "G_C09_OneWriterPerClient")
+  \cup If(st[u].out # "attached", "G_C09_NoPacketBeforeTheResponseToTheOutRequest")
 Eff_WriteBegin(u, role) == [st[u] EXCEPT !.wr = @ \cup {role}, !.resp = IF role = "loop" /\ @ < 2 THEN @ + 1 ELSE @]
 Pre_WriteEnd(u, role) == If(role \in st[u].wr, "G_C09_OneWriterPerClient")
 Eff_WriteEnd(u, role) == [st[u] EXCEPT !.wr = @ \ {role}]
@@ -237,6 +242,8 @@ ConnectionNeedsTheSteps == \A u \in DOMAIN st : st[u].dials > 0 => st[u].prog = 
 UserIsTheOneItWasOpenedAs == \A u \in DOMAIN st : st[u].user \in {"", UserOf(u)} /\ (st[u].loop # "none" => st[u].user = UserOf(u))
 \* C11: the registry holds exactly the tunnels that are being served
 RegCount(s) == Cardinality({x \in DOMAIN s : s[x].reg})
+\* C09 / C06: nothing is written to the client between the attachment of an OUT connection and the response to its request
+NoWriterBeforeTheAccept == \A u \in DOMAIN st : st[u].out = "attached" => st[u].wr = {}
 \* C16
 ResponseDiscipline == \A u \in DOMAIN st : st[u].resp <= 1 /\ (st[u].cur \in Unanswered => st[u].resp = 0)
 \* C07
